@@ -30,7 +30,8 @@ CHECKS['C11'] = dict(
     text=('Invariant RefsOK (every related_model names an existing model or an explicitly deleted one) proved to be '
           'preserved by ChangeField/DeleteField/RenameField/ChangeMeta, by RenameModel (all references rewritten, '
           'prefix names safe) and by DeleteModel (with the deletion exemption) for every signature with unique keys; '
-          'proved counterexamples for RenameAppLabel (F12) and the theorem for the repaired reference rewrite; an exact app '
+          'lifted to sequences of every length over these kinds (C11_sequence_preserves: induction over the list, ids and '
+          'the label in force are invariants); proved counterexamples for RenameAppLabel (F12) and the theorem for the repaired reference rewrite; an exact app '
           'id takes precedence over a legacy label when both match (C11_getApp_id_first, order read from the source). The '
           'simulate() model is tied to the real mutation classes by differential correspondence on relation-rich '
           'two-app signatures; dangling-reference oracle on real signatures and foreign-key oracle on the real SQLite '
